@@ -195,7 +195,7 @@ def registry():
         CheckDef(
             prop="C02",
             title="five-stage + interlock == single-cycle",
-            batches=[P.Programs("pipe", 90000, 1500000)],
+            batches=[P.Programs("pipe", 90000, 1500000), P.Programs("pipe-long", 1500, 60000, long=True)],
             design_ref="DESIGN.md §4, §7 C02",
             rule=(
                 "pipesim: seeded programs (<=40 static / 400 dynamic instructions, personalities: register pool 2-5, "
@@ -229,6 +229,7 @@ def registry():
             title="five-stage retire times and cycle count",
             batches=[
                 P.Programs("pipe-timing", 70000, 1200000, faults=False),
+                P.Programs("pipe-long", 1500, 50000, faults=False, long=True),
                 P.Programs("pipe-independent", 15000, 200000, faults=False, force_shape="independent"),
             ],
             design_ref="DESIGN.md §4.5, §7 C07",
@@ -254,7 +255,7 @@ def registry():
         CheckDef(
             prop="C08",
             title="hazard detection off == interlock-free pipeline",
-            batches=[P.Programs("pipe-nohz", 45000, 700000)],
+            batches=[P.Programs("pipe-nohz", 45000, 700000), P.Programs("pipe-long", 800, 25000, long=True)],
             design_ref="DESIGN.md §4.6, §7 C08",
             rule=(
                 "pipesim: same programs as C02 with dependency-dense register pools; five-stage mode without hazard "
@@ -332,8 +333,8 @@ def registry():
         "the user: a seeded process choosing among the enabled actions",
     ]
     life_state = (
-        "UI mode: distinct (action performed, isRunning, error, isDone, hasStarted) tuples; API mode: distinct (call kind, "
-        "loaded, faulted, done, started) tuples"
+        "UI mode: distinct (action performed, isRunning, error, isDone, hasStarted, hasUnparsedChanges, nextCycle) tuples; API "
+        "mode: distinct (call kind, loaded, faulted, done, started) tuples; transitions = distinct bigrams of those"
     )
     life_time = "simulated_ms = virtual wall-clock milliseconds covered; events/calls = driver events or API calls issued; timers_fired = setTimeout callbacks run"
     add(
@@ -420,6 +421,8 @@ def registry():
     reg["C15"].components_real = reg["C15"].components_real + LIFE_REAL
     reg["C15"].components_stub = reg["C15"].components_stub + LIFE_STUB
     reg["C11"].batches += [L.ApiEpisodes("api-reload", 2500, 40000, isa="riscv", flavour="reload")]
+    reg["C09"].batches += [L.ApiEpisodes("api-dcache-loads", 1200, 20000, isa="riscv", flavour="loads", force={"dc": {"enable": True}})]
+    reg["C09"].components_real = reg["C09"].components_real + LIFE_REAL[:3]
     reg["C11"].components_real = reg["C11"].components_real + LIFE_REAL[:2]
     _REG = reg
     return reg
